@@ -19,8 +19,8 @@ import mutate  # noqa: E402  (candidates / SWAPS)
 import translate as T  # noqa: E402
 
 W = "/tmp/mutfn"
-MODS = ["EvalexprVerif.Proofs.AgreeFnError", "EvalexprVerif.Proofs.AgreeFnValue", "EvalexprVerif.Proofs.AgreeFnOperator",
-        "EvalexprVerif.Proofs.AgreeFnTree", "EvalexprVerif.Proofs.AgreeFnContext"]
+MODS = ["EvalexprVerif.Proofs." + m for m in ("AgreeFnValueType", "AgreeFnError", "AgreeFnValue", "AgreeFnNumeric", "AgreeFnContext", "AgreeFnOperator",
+                                                "AgreeFnTree", "AgreeFnInterface")]
 
 
 def sh(cmd, cwd=None, env=None, timeout=900):
@@ -32,14 +32,14 @@ def sh(cmd, cwd=None, env=None, timeout=900):
 
 
 def translated_ranges(src):
-    """(file, first line, last line) of every fn item translate.py lists as TRANSLATED (0-based, inclusive)"""
-    res = []
+    """(file, fn name, first line, last line) of every fn item translate_fn.py translates (0-based, inclusive)"""
+    os.environ["EVALEXPR_SRC"] = src
     T.SRC = src
-    for rel, name in sorted(T.TRANSLATED):
-        toks = T.load(rel)
-        for sig, body in T.find_fns(toks, name):
-            res.append((rel, name, sig[0].line - 1, body[-1].line))
-    return res
+    import translate_fn
+    translate_fn.SRC = src
+    translate_fn.OUT = f"{W}/gen_scratch"
+    w, _ = translate_fn.run()
+    return [(g.item.file, g.item.name, g.item.line - 1, (g.item.body_toks[-1].line if g.item.body_toks else g.item.line)) for g in w.order]
 
 
 def main():
